@@ -119,7 +119,7 @@ ADDENDA = {
  "C06": "Added near-miss rows: FieldsOf parent counterparts, variadic providers whose slice type has no source (nothing / element / array / pointer-to-slice provided). Near-miss forms: another instantiation of the same generic type (also nested), the other spelling of a type (accepted); positions: a later parameter / field of the provider that also takes the provided near miss. Positions: embedded field under \"*\", an input of the provider of a struct a field is selected from. A type provided only by the blank-named sibling initialiser of the listed set's var spec.",
  "C07": "Every graph family also comes with its sources spread over several set variables (5 layouts incl. sub-sets listed directly in wire.Build); scaling lattices through struct fields, bindings and field providers. Added: binding chains (50/200/400 long, listed from either end) with a step counter on the used-bindings walk; an erroneous leaf set under 4/8/16 levels of doubled set inclusion, judged on the number of diagnostic lines (linear budget, at most tripling when depth doubles); the spelling-twins programs under the step cap. Sets of interface bindings that only lead to each other (loops, tails into loops); every wire process runs under a CPU-time cap whose exhaustion is reported like a step-cap event. Layouts 5 and 6: bindings in the including set / directly in Build over one Base set; adapters between function types with permuted parameters must not be reported as cycles.",
  "C08": "Added: bind-order family as contributing controls; pass-through injectors (result is a parameter, directly or behind a binding; value only; field of a parameter) x every superfluous kind. Controls: a FieldsOf item listing several fields of which one is needed, listed directly in wire.Build (value and pointer parents, pointer-to-field). A superfluous binding at every position around binding chains listed in five orders. Superfluous items spelled exactly like a used one (same name, same package clause, other import path).",
- "C09": "Duplicate parameter / field types in 9 kinds (named, alias, *T, []T, map, func, chan, array, **T) written out twice; injector-needs rule through bindings, struct fields, field parents, nested and foreign sets, and NOT for unneeded set members. Needs rule also with a harmless provider of the same name called earlier (other package; two packages sharing a package name) and after a struct provider used in both forms. Duplicate parameter / field / injector-parameter types written in two spellings (rune/int32, byte/uint8, any/interface{}). Illegal providers nobody needs, inside used nested sets.",
+ "C09": "Duplicate parameter / field types in 9 kinds (named, alias, *T, []T, map, func, chan, array, **T) written out twice; injector-needs rule through bindings, struct fields, field parents, nested and foreign sets, and NOT for unneeded set members. Needs rule also with a harmless provider of the same name called earlier (other package; two packages sharing a package name) and after a struct provider used in both forms. Duplicate parameter / field / injector-parameter types written in two spellings (rune/int32, byte/uint8, any/interface{}). Illegal providers nobody needs, inside used nested sets. One struct field named twice or three times in wire.Struct.",
  "C10": "Added: a base set shared by 3-4 wrapper sets each adding a different source for one interface; C13's relocation-sensitive value expressions placed in the injector's package and in another package's set. Adapters between function types that differ only in parameter order.",
  "C11": "Added: bind-order family (executed), order-dependent negatives (legal *C binding first, illegal C binding later), interface-to-interface negatives. Two thirds of all programs spell the arguments of wire.Bind as typed nil pointers instead of new(...). Zero-call injectors returning the parameter an interface binding designates. Negatives: a binding in an inline nested set whose concrete type only the enclosing set or Build provides (four placements).",
  "C12": "Added: both forms S and *S of one struct provider in one injector with a provider writing through the pointer (all 24 parameter orders); promoted-field negatives. Tags that merely look like wire's (protowire:\"-\", json:\"-\", a quoted wire:\"-\" inside another value). Field names made of underscores only (__, ___) next to _x and X_. Dotted field names (type, field, package, parent prefix) are not fields. Structs with two fields differing only in case.",
@@ -129,8 +129,8 @@ ADDENDA = {
  "C16": "Added layout: GOPATH with the vendor directory inside the injector package's directory; value types of the same name in two packages plus neighbour programs in the same invocation, incl. neighbours that import the program's own library packages in both orders. The injector file blank-imports the program's own library packages (vendored in the GOPATH+vendor layouts). File lists named from the module root and by absolute paths.",
  "C17": "Added no-injector package variants (blank imports + init; a wireinject-tagged file without injector; a directory with only a _test.go file) and bad patterns (missing directory / all files excluded) x 4 commands. Options written before the command name (wire <opts> gen|diff ./...): honoured exactly as after it, or refused with exit 2 and an untouched tree (F73). Header kinds with a // +build line (F74).",
  "C18": "Seven source variants (one's output a prefix of another's; helpers named like the next variant's import/locals/value variable), damage kinds incl. same-length, whitespace, comment before header, future/ancient mtime; tails regenerating one accepted variant after another. gen / diff / gen / diff under one -tags list in five spellings inside histories.",
- "C19": "Agreement cases: later injectors (second in file / second file / panic form / with parameters) x {missing, need-err, need-cleanup, unused, conflict}; inaccessible values x the four injector result shapes; alias and grouped set variables in show. gen and check under -tags that select which injector files belong to the package (tags \"\", prod, other; two packages). Unreferenced set variables made only of other sets (plus a binding) whose union is cyclic.",
- "C20": "Forms added: long/duplicate name lists, InterfaceValue into the empty interface; the result-kind matrix is judged by the full oracle (positioned diagnostic or output). Bind with interface-typed and other odd second arguments.",
+ "C19": "Agreement cases: later injectors (second in file / second file / panic form / with parameters) x {missing, need-err, need-cleanup, unused, conflict}; inaccessible values x the four injector result shapes; alias and grouped set variables in show. gen and check under -tags that select which injector files belong to the package (tags \"\", prod, other; two packages). Unreferenced set variables made only of other sets (plus a binding) whose union is cyclic. show on layered programs whose sets all carry one variable name.",
+ "C20": "Forms added: long/duplicate name lists, InterfaceValue into the empty interface; the result-kind matrix is judged by the full oracle (positioned diagnostic or output). Bind with interface-typed and other odd second arguments. Unusable foreign declarations named through dot imports and renamed imports.",
 }
 
 def main():
